@@ -384,7 +384,69 @@ func normCmp(cond ssa.Value, val bool) (cmp, bool) {
 // helper the fact may also be established by the callers: it then has to hold (in the
 // matcher's sense) at every call site of the helper.
 func hasFact(in ssa.Instruction, pred func(f fact) bool) bool {
-	return hasFactRec(in, pred, 0)
+	return hasFactRec(in, pred, 0) || hasFactOnPaths(in, pred)
+}
+
+// hasFactOnPaths: in a loop-free function, the fact holds before in on every feasible entry path (a flag
+// variable set in the branches and tested afterwards correlates the later test with the earlier one; the
+// path enumeration resolves the flag's phi per path and drops the contradictory combinations).
+func hasFactOnPaths(in ssa.Instruction, pred func(f fact) bool) bool {
+	ok, decided := everyPathTo(in, func(conds []fact) bool {
+		for _, c := range conds {
+			if pred(c) {
+				return true
+			}
+		}
+		return false
+	})
+	return ok && decided
+}
+
+type flatPaths struct {
+	paths []upath
+	ok    bool
+}
+
+var flatPathCache = map[*ssa.Function]*flatPaths{}
+
+// everyPathTo: accept holds for the branch facts collected before in on every feasible path of in's function
+// that reaches it. decided is false when the function has loops or too many paths.
+func everyPathTo(in ssa.Instruction, accept func(conds []fact) bool) (ok, decided bool) {
+	f := in.Parent()
+	if f == nil {
+		return false, false
+	}
+	ent := flatPathCache[f]
+	if ent == nil {
+		ps, pok := enumPathsFlat(f, 2000)
+		ent = &flatPaths{ps, pok}
+		flatPathCache[f] = ent
+	}
+	if !ent.ok {
+		return false, false
+	}
+	found := false
+	for i := range ent.paths {
+		p := &ent.paths[i]
+		idx := p.indexOf(in)
+		if idx < 0 {
+			continue
+		}
+		found = true
+		n := 0
+		for _, x := range p.Instrs[:idx] {
+			if _, isIf := x.(*ssa.If); isIf {
+				n++
+			}
+		}
+		if n > len(p.Conds) {
+			n = len(p.Conds)
+		}
+		if !accept(p.Conds[:n]) {
+			return false, true
+		}
+	}
+	return found, true
 }
 
 func hasFactRec(in ssa.Instruction, pred func(f fact) bool, depth int) bool {
@@ -957,3 +1019,5 @@ func originAt(v ssa.Value, at ssa.Instruction) ssa.Value {
 	}
 	return origin(rv[0])
 }
+
+func resetFlatPaths() { flatPathCache = map[*ssa.Function]*flatPaths{} }
